@@ -68,8 +68,15 @@ def main():
                                                  (" (" + FIRST_MISSED[name] + ")") if name in FIRST_MISSED else ""))
         if suite:
             rows[-1] += "  <!-- pinned suite: %d stable tests fail with this patch -->" % len(suite)
-    print("| id | change | needs | caught by (first clauses) |\n|---|---|---|---|")
-    print("\n".join(rows))
+    table = "| id | change | needs | caught by (first clauses) |\n|---|---|---|---|\n" + "\n".join(rows)
+    import sys
+    if "--write" in sys.argv:
+        p = os.path.join(C.VERIF, "DESIGN.md")
+        s = open(p).read()
+        a, b = s.index("<!-- SEEDTABLE BEGIN -->"), s.index("<!-- SEEDTABLE END -->")
+        open(p, "w").write(s[:a] + "<!-- SEEDTABLE BEGIN -->\n" + table + "\n" + s[b:])
+    else:
+        print(table)
 
 
 if __name__ == "__main__":
